@@ -189,10 +189,32 @@ function cmpRec(w, id, e, a, out, opts) {
       const am = a[ch] || {}
       for (const k of Object.keys(em)) {
         if (!(k in am)) continue
+        if (opts.pathMode === 'ref') { cmpRefPath(w, id, ch, k, em[k], am[k], out); continue }
         if (ch === 'r') cmpVal(w, id, 'r.mp', k, em[k].mp, am[k].mp, out, opts)
         cmpVal(w, id, ch + '.gp', k, em[k].gp, am[k].gp, out, opts)
       }
     }
+  }
+}
+
+// C11, against the reference: a path that is given must be the location the model says the expression reads
+// (segments compared as property keys, i.e. by String()); a missing path is a mismatch only where `lvc` demands one.
+const pathPresent = (x) => x !== undefined && x !== null
+function samePath(a, b) {
+  return Array.isArray(a) && Array.isArray(b) && a.length === b.length && a.every((x, i) => typeof x !== 'symbol' && typeof b[i] !== 'symbol' && String(x) === String(b[i]))
+}
+function cmpRefPath(w, id, ch, k, e, a, out) {
+  const g = e.g
+  const why = g ? `<the expression reads ${show(g)}>` : '<no path: the expression is not an access chain>'
+  if (ch === 'r') {
+    if (pathPresent(a.mp)) {
+      if (!(g && g[0] === 0 && samePath(g.slice(1), a.mp))) out.push({ where: w, id, ch: 'r.mp', name: k, expected: g && g[0] === 0 ? show(g.slice(1)) : why, actual: show(a.mp) })
+    } else if (e.lvc && g && g[0] === 0) {
+      out.push({ where: w, id, ch: 'r.mp', name: k, expected: show(g.slice(1)), actual: '<no path>' })
+    }
+  }
+  if (pathPresent(a.gp)) {
+    if (!(g && samePath(g, a.gp))) out.push({ where: w, id, ch: ch + '.gp', name: k, expected: g ? show(g) : why, actual: show(a.gp) })
   }
 }
 
@@ -260,7 +282,7 @@ const handlers = {
           mism.push({ where: '', ch: 'throw', name: '', expected: refThrew === null ? '<returns>' : 'throws: ' + refThrew.split('\n')[0], actual: realThrew === null ? '<returns>' : 'throws: ' + realThrew.split('\n').slice(0, 3).join(' | ') })
         }
       } else {
-        cmpTrees(expected, actual, '', mism, { paths: !!req.paths, fnBySource: true })
+        cmpTrees(expected, actual, '', mism, { paths: !!req.paths, pathMode: 'ref', fnBySource: true })
       }
       results.push({ mismatches: mism.slice(0, 50), nodes: actual ? countNodes(actual) : 0 })
     }
@@ -390,70 +412,79 @@ const handlers = {
     return { dump: JSON.parse(JSON.stringify(dumpRoot(inst.root), (k, v) => (typeof v === 'function' || v === undefined || (typeof v === 'number' && !Number.isFinite(v)) ? show(v) : v))) }
   },
 
-  // C11: lvalue paths. For each observed path: get-put law + expectation from model
-  lvalue(req) {
+  // C11 get-put law: for each data path observed (model path, or general path with prefix 0) write a sentinel at that
+  // path in a fresh copy of the data, create again and read the same binding: it must be the sentinel. Cases where the
+  // write cannot be done (a container on the way is missing / not an object) or where it changes the structure or the
+  // path itself (the index expression reads the written location) are counted as skipped, never reported.
+  getput(req) {
     const pool = makePool()
     let G
     try { G = loadBundle(req.bundle) } catch (e) { return { error: 'bundle: ' + String(e && e.stack || e) } }
-    const D = evalData(req.data, pool)
-    const out = { observed: [], mismatches: [] }
-    let inst
-    try { inst = instantiate(G, req.entry); inst.w.create(D) } catch (e) { return { createThrew: String(e && e.stack || e) } }
-    const forPaths = []
-    // collect for-loop lvalue paths by wrapping: re-run with F interception
-    const collect = (node, where) => {
-      node.childNodes.forEach((c, i) => {
-        const w = `${where}/${i}`
-        if (c.kind === 'el' || (c.kind === 'virtual' && c.is === 'slot')) {
-          const rec = c.rec
-          for (const ch of ['r', 'v', 'p', 'l']) {
-            for (const k of Object.keys(rec[ch] || {})) {
-              const it = rec[ch][k]
-              if (ch === 'r' && it.mp !== undefined) out.observed.push({ where: w, tagid: rec.i, ch: 'mp', name: k, path: it.mp, value: show(it.v) })
-              if (it.gp !== undefined) out.observed.push({ where: w, tagid: rec.i, ch: ch + '.gp', name: k, path: it.gp, value: show(it.v) })
+    const results = []
+    for (const dsrc of req.data) {
+      const res = { observed: 0, dataPaths: 0, ok: 0, skipped: 0, mismatches: [], samples: [] }
+      results.push(res)
+      let inst
+      try { inst = instantiate(G, req.entry); inst.w.create(evalData(dsrc, pool)) } catch (e) { res.createThrew = String(e && e.message); continue }
+      const observed = []
+      const collect = (node, where) => {
+        node.childNodes.forEach((c, i) => {
+          const w = `${where}/${i}`
+          if (c.rec) {
+            for (const ch of ['r', 'v', 'p', 'l']) {
+              for (const k of Object.keys(c.rec[ch] || {})) {
+                const it = c.rec[ch][k]
+                if (ch === 'r' && pathPresent(it.mp)) observed.push({ where: w, ch, name: k, which: 'mp', path: it.mp })
+                if (pathPresent(it.gp)) observed.push({ where: w, ch, name: k, which: 'gp', path: it.gp })
+              }
             }
           }
+          if (c.childNodes) collect(c, w)
+        })
+      }
+      collect(inst.root, '')
+      res.observed = observed.length
+      const nodeAt = (root, where) => {
+        let n = root
+        for (const idx of where.split('/').filter((x) => x !== '')) n = n && n.childNodes && n.childNodes[Number(idx)]
+        return n
+      }
+      for (const ob of observed) {
+        if (!Array.isArray(ob.path)) { res.mismatches.push({ where: ob.where, ch: ob.ch + '.' + ob.which, name: ob.name, expected: 'an array path', actual: show(ob.path) }); continue }
+        let dataPath = null
+        if (ob.which === 'mp') dataPath = ob.path
+        else if (ob.path[0] === 0) dataPath = ob.path.slice(1)
+        if (dataPath === null) continue
+        res.dataPaths += 1
+        const D2 = evalData(dsrc, pool)
+        let cur = D2
+        let ok = dataPath.length > 0
+        for (let i = 0; ok && i < dataPath.length - 1; i += 1) {
+          const seg = dataPath[i]
+          if (cur === null || typeof cur !== 'object' || typeof seg === 'symbol' || !Object.prototype.hasOwnProperty.call(cur, seg)) { ok = false; break }
+          cur = cur[seg]
         }
-        if (c.childNodes) collect(c, w)
-      })
-    }
-    collect(inst.root, '')
-    // get-put law for model paths (data paths): set sentinel at path, re-create, read the same attribute
-    for (const ob of out.observed) {
-      let dataPath = null
-      if (ob.ch === 'mp') dataPath = ob.path
-      else if (Array.isArray(ob.path) && ob.path[0] === 0) dataPath = ob.path.slice(1)
-      if (!Array.isArray(dataPath) || dataPath === null) continue
-      const sentinel = pool.sentinel
-      const D2 = evalData(req.data, pool)
-      let ok = true
-      let cur = D2
-      for (let i = 0; i < dataPath.length - 1; i += 1) {
-        if (cur === null || typeof cur !== 'object') { ok = false; break }
-        cur = cur[dataPath[i]]
-      }
-      if (!ok || cur === null || typeof cur !== 'object' || dataPath.length === 0) {
-        out.mismatches.push({ where: ob.where, ch: 'getput', name: ob.name, expected: 'path addresses an existing container', actual: 'path ' + JSON.stringify(dataPath) + ' does not resolve in data' })
-        continue
-      }
-      cur[dataPath[dataPath.length - 1]] = sentinel
-      try {
-        const i2 = instantiate(G, req.entry)
-        i2.w.create(D2)
-        // find same node by where
-        let n = i2.root
-        for (const idx of ob.where.split('/').filter((x) => x !== '')) n = n && n.childNodes[Number(idx)]
-        const chName = ob.ch === 'mp' ? 'r' : ob.ch.split('.')[0]
-        const it = n && n.rec && n.rec[chName] && n.rec[chName][ob.name]
-        if (!it || it.v !== sentinel) {
-          out.mismatches.push({ where: ob.where, ch: 'getput', name: ob.name, expected: 'sentinel', actual: it ? show(it.v) : '<node/attr missing>', path: dataPath })
+        if (!ok || cur === null || typeof cur !== 'object' || typeof cur === 'function') { res.skipped += 1; continue }
+        const sentinel = { $sentinel: true }
+        try { cur[dataPath[dataPath.length - 1]] = sentinel } catch (e) { res.skipped += 1; continue }
+        if (cur[dataPath[dataPath.length - 1]] !== sentinel) { res.skipped += 1; continue }
+        let it
+        try {
+          const i2 = instantiate(G, req.entry)
+          i2.w.create(D2)
+          const n = nodeAt(i2.root, ob.where)
+          it = n && n.rec && n.rec[ob.ch] && n.rec[ob.ch][ob.name]
+        } catch (e) { res.skipped += 1; continue }
+        if (!it || !samePath(it[ob.which], ob.path)) { res.skipped += 1; continue }
+        if (it.v !== sentinel) {
+          res.mismatches.push({ where: ob.where, ch: 'getput', name: ob.name, expected: `the value written at ${show(dataPath)}`, actual: show(it.v) })
+        } else {
+          res.ok += 1
+          if (res.samples.length < 3) res.samples.push(show(ob.path))
         }
-      } catch (e) {
-        out.mismatches.push({ where: ob.where, ch: 'getput', name: ob.name, expected: 'sentinel', actual: 'throws ' + String(e && e.message) })
       }
     }
-    void forPaths
-    return out
+    return { results }
   },
 }
 
